@@ -1,46 +1,52 @@
 // Edge rules of the C19 flow-graph translator (see the header of main.go for the overview).
 //
-// Every SSA value x has a node x.v ("the value itself / which object it refers to").  A value whose
-// type can hold a reference (pointer, slice, map, chan, interface other than error, func, or a
-// struct/array/tuple containing one; strings and error values are immutable and excluded) has three more:
+// Every SSA value x has a node x.v ("the value itself": a number, or which object a reference names).
+// A value whose type can hold a reference (pointer, slice, map, chan, interface, func, or a
+// struct/array/tuple containing one; strings and error values are immutable and excluded) has two more:
 //
 //	x.m  content: everything that can be READ from memory reachable through x
-//	x.d  everything WRITTEN into memory reachable through x, by way of x, of references derived from
-//	     x, or of callees that received x
-//	x.w  everything written through references that were LOADED out of memory reachable from x
-//	     (needed for "p stored in a field, later loaded as q, q filled by rand.Read": p.d <- field.w <- q.d)
+//	x.d  everything WRITTEN into memory reachable through x - by way of x itself, of references
+//	     derived from x (&x.F, &x[i], x[a:b], conversions, loads out of x's memory), or of callees that
+//	     received x
 //
-// A struct field T.F has nodes T.F.m / .d / .w shared by all instances of T (field-based heap model).
-// An edge n <- k below reads "n depends on k".  "ref operand" = operand with a reference-holding type.
+// A struct field T.F (T declared anywhere) has nodes T.F.m / T.F.d shared by all instances of T; they
+// give content to objects whose allocation the slice cannot see (M2).
+// An edge "n <- k" reads "n depends on k".  "ref operand" = operand with a reference-holding type.
+// Every consumer of a reference-typed value (store, call argument, sink) takes both x.v and x.m.
 //
-//	V1 instruction y:  y.v <- o.v for every operand o;  if y reads memory (load *a, <-ch, m[k], a[i],
-//	   s.F, next, select) also y.v <- o.m for its ref operands.     Field s.F:  y.v <- T.F.m
-//	V2 parameter p.f <- a.f (f = v, m, w) for the corresponding argument a of every call site (CHA) in
-//	   expanded code, p.v <- neutral leaf "called from <pkg>" for call sites in leaf packages;
+//	V1 instruction y:  y.v <- o.v for every operand o;  if y reads a scalar out of memory (load *a, <-ch,
+//	   m[k], a[i], s.F, next, select; result type holds no reference) also y.v <- o.m for its ref operands
+//	V2 parameter p.f <- a.f (f = v, m) for the corresponding argument a of every call site in expanded
+//	   code that may call the function (static callee, or CHA restricted to receiver types that some
+//	   MakeInterface in the program produces, resp. to functions used as values);
+//	   p.v <- neutral leaf "called from <pkg>" for call sites in leaf packages;
 //	   free variable fv.f <- b.f for the binding b of every MakeClosure of its function
-//	V3 call c of expanded callee(s): result r (per result index; Extract k takes result k):
-//	   c.f <- r.f (f = v, m, w)
-//	V4 call c of a leaf (the "hub"): c.v <- leaf node, a.v and a.m of every argument/receiver a;
-//	   c.m <- c.v;  Extract k of a leaf call <- c.v
-//	M1 x.m <- x.d;  x.m <- o.m for every ref operand o (derived references and loaded references can
-//	   read what their source can reach), except  &s.F: x.m <- T.F.m  and  s.F: x.m <- T.F.m, s.m
-//	M2 x of type T or *T, T a struct declared in the expanded packages: x.m <- T.F.m for every field F
-//	   of T that expanded code accesses (a struct carries its fields).  T.F.m <- T.F.d
+//	V3 call c of expanded callee(s), result r (per result index; Extract k takes result k): c.f <- r.f
+//	V4 call c of a leaf (the "hub"): c.v <- leaf node, a.v and a.m of every argument/receiver a
+//	   (builtin len/cap: a.v only);  c.m <- c.v;  Extract k of a leaf call <- c.v
+//	M1 x.m <- x.d;  x.m <- o.m for every ref operand o (a derived or loaded reference reads what its
+//	   source can reach; &s.F and s.F read the content of the whole object s: field-insensitive)
+//	M2 x originless (result of a leaf call, global, parameter of an entry point - exported, no call site
+//	   in expanded code - or of a function called from a leaf package) of type T or *T, T a struct
+//	   declared in the expanded packages: x.m <- T.F.m for every field F of T accessed in expanded code;
+//	   T.F.m <- T.F.d;  T.F.d <- y.d for every y = &_.F in expanded code
 //	M3 MakeClosure c: c.m <- b.v, b.m for every binding b;  leaf global g: g.m <- g.v
 //	D1 uses of x:  Store *x = y: x.d <- y.v, y.m     MapUpdate x[k] = y / Send x <- y: likewise
-//	   y is a ref-typed instruction with operand x (derived or loaded reference): x.d <- y.d
-//	      (except &x.F / x.F, whose writes go to the field: T.F.d <- y.d for every &_.F in expanded code)
+//	   y is a ref-typed instruction with operand x (derived or loaded reference, &x.F included): x.d <- y.d
 //	   x is argument i of a call: expanded callee: x.d <- p_i.d; leaf that may write argument i
-//	      (leafContract; default: yes): x.d <- hub c.v; leaf whose ref-typed result may alias its
-//	      arguments (contract not "none"): x.d <- c.d
-//	   x bound by MakeClosure: x.d <- fv.d      x returned: x.d <- c.d of every call site (per index)
-//	D2 Store *a = x (also map value/key, channel send), x ref: x.d <- a.w
-//	W1 x.w <- o.w for every ref operand o of x (for &s.F: <- T.F.w instead);  x.w <- y.w for every
-//	   ref-typed instruction y using x, and x.w <- y.d when y loads from x;  Store *a = x: x.w <- a.w;
-//	   T.F.w <- y.w for every &_.F, and <- z.d, z.w for every ref-typed _.F;  argument/parameter,
-//	   binding/free variable, result/call (for leaves: unless contract "none"): both directions.
+//	      (leafContract; default: yes): x.d <- hub c.v; leaf whose ref-typed result may alias
+//	      argument i (same table: "none" no argument, "recv" the receiver only): x.d <- c.d
+//	   x bound by MakeClosure: x.d <- fv.d
+//	   x returned and x is not itself an allocation (new/make: a distinct object per call):
+//	      x.d <- c.d of every call site (per result index)
 //	G  a global of an expanded package is an address like any other; its uses are found by a scan of
 //	   all expanded functions (SSA keeps no referrer lists for globals).
+//
+// Not modelled (stated in the evidence): (L1) a reference stored into memory, re-loaded elsewhere and
+// written through THERE is seen by later readers of that memory (M1/M2) but not by code that kept the
+// original reference in a register; (L2) writes through package reflect / unsafe into struct fields
+// are attributed to the hub of the reflect call, not to T.F (in this code base only the TL decoder
+// does that, with bytes read from the network); (L3) control dependence (which branch ran) is no edge.
 package main
 
 import (
@@ -51,7 +57,7 @@ import (
 	"golang.org/x/tools/go/ssa"
 )
 
-var facetName = map[byte]string{'v': "value", 'm': "content", 'd': "written-into", 'w': "written-via-loaded-ref"}
+var facetName = map[byte]string{'v': "value", 'm': "content", 'd': "written-into"}
 
 // N: node of facet f of SSA value x; nil for constants, builtins, function constants, and for the
 // memory facets of values that cannot hold a reference.
@@ -76,7 +82,7 @@ func (t *tr) N(x ssa.Value, f byte) *node {
 			}
 		})
 	}
-	if f != 'v' && !isRef(x.Type()) || f == 'w' {
+	if f != 'v' && !isRef(x.Type()) {
 		return nil
 	}
 	fn := x.Parent()
@@ -206,7 +212,7 @@ func (t *tr) resultNodes(c ssa.CallInstruction, idx, nres int, f byte) []*node {
 	return out
 }
 
-// V3/V4 for facet f (v, m or w) of result idx (-1: the call node itself) of call c
+// V3/V4 for facet f (v or m) of result idx (-1: the call node itself) of call c
 func (t *tr) callResult(n *node, c ssa.CallInstruction, idx int, f byte) {
 	cc := c.Common()
 	fns := t.calleesOf(c)
@@ -228,12 +234,6 @@ func (t *tr) callResult(n *node, c ssa.CallInstruction, idx int, f byte) {
 		return
 	}
 	switch {
-	case f == 'w':
-		for i, a := range callArgs(cc) {
-			if mayAlias(li.name, i) {
-				t.add(n, t.N(a, 'w'))
-			}
-		}
 	case f == 'm' || idx >= 0:
 		t.add(n, t.hub(c))
 	default: // the hub itself
@@ -249,13 +249,38 @@ func (t *tr) callResult(n *node, c ssa.CallInstruction, idx int, f byte) {
 		}
 		for _, a := range callArgs(cc) {
 			t.add(n, t.N(a, 'v'))
-			t.add(n, t.N(a, 'm'))
+			if li.name != "builtin len" && li.name != "builtin cap" { // the length is part of the slice value itself
+				t.add(n, t.N(a, 'm'))
+			}
 		}
 		if !cc.IsInvoke() && cc.StaticCallee() == nil {
 			t.add(n, t.N(cc.Value, 'v'))
 			t.add(n, t.N(cc.Value, 'm'))
 		}
 	}
+}
+
+// originless: values whose content cannot be traced to an allocation in expanded code through
+// M1/V2/V3 - results of leaf calls, globals, parameters of functions that are called from leaf packages
+// or are entry points (exported, no call site in expanded code; an unexported function without call
+// sites, e.g. the promotion wrapper of an unexported method, is dead code)
+func (t *tr) originless(x ssa.Value) bool {
+	switch y := x.(type) {
+	case *ssa.Global:
+		return true
+	case *ssa.Parameter:
+		sites, ext := t.callSitesOf(y.Parent())
+		return len(sites) == 0 && token.IsExported(y.Parent().Name()) || len(ext) > 0
+	case *ssa.Call:
+		_, leaf := t.leafOf(y.Common(), t.calleesOf(y))
+		return leaf
+	case *ssa.Extract:
+		if c, ok := y.Tuple.(*ssa.Call); ok {
+			_, leaf := t.leafOf(c.Common(), t.calleesOf(c))
+			return leaf
+		}
+	}
+	return false
 }
 
 // M2
@@ -344,13 +369,6 @@ func (t *tr) expand(n *node) {
 					t.add(n, t.N(u, 'd'))
 				}
 			}
-		case 'w':
-			for _, u := range t.fieldUses[k] {
-				t.add(n, t.N(u, 'w'))
-				if _, isAddr := u.(*ssa.FieldAddr); !isAddr {
-					t.add(n, t.N(u, 'd'))
-				}
-			}
 		}
 		return
 	}
@@ -372,13 +390,12 @@ func (t *tr) expand(n *node) {
 		t.expandV(n, x)
 	case 'm':
 		t.add(n, t.N(x, 'd'))
-		t.content(n, x.Type())
+		if t.originless(x) {
+			t.content(n, x.Type())
+		}
 		t.expandVMW(n, x, 'm')
 	case 'd':
 		t.expandD(n, x)
-	case 'w':
-		t.expandVMW(n, x, 'w')
-		t.expandWuses(n, x)
 	}
 }
 
@@ -405,15 +422,10 @@ func (t *tr) expandV(n *node, x ssa.Value) {
 				t.add(n, t.N(*op, 'm'))
 			}
 		}
-		if _, isField := x.(*ssa.Field); isField && !isRef(x.Type()) {
-			if k, ok := fieldOf(x); ok {
-				t.add(n, t.F(k, 'm'))
-			}
-		}
 	}
 }
 
-// the operand/caller side of facets m and w (M1, V2, V3, V4, W1 first half)
+// the operand/caller side of facet m (M1, V2, V3, V4)
 func (t *tr) expandVMW(n *node, x ssa.Value, f byte) {
 	switch y := x.(type) {
 	case *ssa.Parameter, *ssa.FreeVar:
@@ -428,9 +440,7 @@ func (t *tr) expandVMW(n *node, x ssa.Value, f byte) {
 			t.add(n, t.N(y.Tuple, f))
 		}
 	case *ssa.FieldAddr:
-		if k, ok := fieldOf(x); ok {
-			t.add(n, t.F(k, f))
-		}
+		t.add(n, t.N(y.X, f))
 	case *ssa.MakeClosure:
 		for _, b := range y.Bindings {
 			if f == 'm' {
@@ -439,11 +449,6 @@ func (t *tr) expandVMW(n *node, x ssa.Value, f byte) {
 			t.add(n, t.N(b, f))
 		}
 	default:
-		if _, isField := x.(*ssa.Field); isField {
-			if k, ok := fieldOf(x); ok {
-				t.add(n, t.F(k, f))
-			}
-		}
 		for _, o := range refOperands(x) {
 			t.add(n, t.N(o, f))
 		}
@@ -464,22 +469,13 @@ func (t *tr) expandD(n *node, x ssa.Value) {
 			if r.Addr == x {
 				stored(r.Val)
 			}
-			if r.Val == x {
-				t.add(n, t.N(r.Addr, 'w'))
-			}
 		case *ssa.MapUpdate:
 			if r.Map == x {
 				stored(r.Key, r.Value)
 			}
-			if r.Key == x || r.Value == x {
-				t.add(n, t.N(r.Map, 'w'))
-			}
 		case *ssa.Send:
 			if r.Chan == x {
 				stored(r.X)
-			}
-			if r.X == x {
-				t.add(n, t.N(r.Chan, 'w'))
 			}
 		case *ssa.MakeClosure:
 			f := r.Fn.(*ssa.Function)
@@ -503,7 +499,6 @@ func (t *tr) expandD(n *node, x ssa.Value) {
 					}
 				}
 			}
-		case *ssa.FieldAddr, *ssa.Field:
 		case ssa.CallInstruction:
 			cc := r.Common()
 			fns := t.calleesOf(r)
@@ -527,70 +522,6 @@ func (t *tr) expandD(n *node, x ssa.Value) {
 		default:
 			if y, ok := r.(ssa.Value); ok {
 				t.add(n, t.N(y, 'd'))
-			}
-		}
-	}
-}
-
-// W1 second half: the uses of x
-func (t *tr) expandWuses(n *node, x ssa.Value) {
-	for _, r := range t.usesOf(x) {
-		switch r := r.(type) {
-		case *ssa.Store:
-			if r.Val == x {
-				t.add(n, t.N(r.Addr, 'w'))
-			}
-		case *ssa.MapUpdate:
-			if r.Key == x || r.Value == x {
-				t.add(n, t.N(r.Map, 'w'))
-			}
-		case *ssa.Send:
-			if r.X == x {
-				t.add(n, t.N(r.Chan, 'w'))
-			}
-		case *ssa.MakeClosure:
-			f := r.Fn.(*ssa.Function)
-			for i, b := range r.Bindings {
-				if b == x && i < len(f.FreeVars) {
-					t.add(n, t.N(f.FreeVars[i], 'w'))
-				}
-			}
-			t.add(n, t.N(r, 'w'))
-		case *ssa.Return:
-			sites, _ := t.callSitesOf(r.Parent())
-			for i, y := range r.Results {
-				if y == x {
-					for _, s := range sites {
-						for _, rn := range t.resultNodes(s, i, len(r.Results), 'w') {
-							t.add(n, rn)
-						}
-					}
-				}
-			}
-		case *ssa.FieldAddr, *ssa.Field:
-		case ssa.CallInstruction:
-			cc := r.Common()
-			fns := t.calleesOf(r)
-			li, leaf := t.leafOf(cc, fns)
-			for i, a := range callArgs(cc) {
-				if a != x {
-					continue
-				}
-				for _, f := range fns {
-					if expanded(f) && i < len(f.Params) {
-						t.add(n, t.N(f.Params[i], 'w'))
-					}
-				}
-				if c, isCall := r.(*ssa.Call); isCall && leaf && mayAlias(li.name, i) {
-					t.add(n, t.N(c, 'w'))
-				}
-			}
-		default:
-			if y, ok := r.(ssa.Value); ok {
-				t.add(n, t.N(y, 'w'))
-				if isLoad(y) {
-					t.add(n, t.N(y, 'd'))
-				}
 			}
 		}
 	}
